@@ -1,6 +1,6 @@
 CONSTANTS
  SrcArrs = {1,2,3,4,5,6,7,8,9,10,11,12,13,14}
- SensArrs = {1,2,4,5,8,9,10,13,14,15,17,19}
+ SensArrs = {1,2,4,5,8,9,10,13,14,15,17,19,21}
  PPs = {1,2,3,4,5}
  Fields = {"B"}
  Aggs = {"none"}
